@@ -428,10 +428,16 @@ def b_set(ex, args, kwargs, s):
     r = alloc_set(s, view.elem_ty)
     k = z3.Const(smt.fresh_name("stk"), V)
     j = z3.Int(smt.fresh_name("stj"))
-    member = z3.Lambda([k], z3.Exists([j], z3.And(0 <= j, j < view.len, to_v(view.at(j), s) == k)))
+    # membership as a fresh array DEFINED by two quantified facts with a witness function (E-matching instantiates them on
+    # demand; a lambda with an inner existential left the solver without usable triggers)
+    member = z3.Const(smt.fresh_name("set_of"), z3.ArraySort(V, z3.BoolSort()))
+    wit = z3.Function(smt.fresh_name("set_wit"), V, z3.IntSort())
+    elem = to_v(view.at(j), s)
     n = smt.fresh_int("stn")
     s.heap = s.heap.with_comp("sh", z3.Store(s.heap.c["sh"], r.t, member)).with_comp("sn", z3.Store(s.heap.c["sn"], r.t, n))
-    s.assume(*smt.heap_wellformed_ref(s.heap, r.t, "s"), n <= view.len)
+    s.assume(smt.forall([j], z3.Implies(z3.And(0 <= j, j < view.len), member[elem]), patterns=[elem] if not z3.is_const(elem) else None),
+             smt.forall([k], z3.Implies(member[k], z3.And(0 <= wit(k), wit(k) < view.len, z3.substitute(elem, (j, wit(k))) == k)), patterns=[member[k]]),
+             *smt.heap_wellformed_ref(s.heap, r.t, "s"), n <= view.len)
     yield s, r
 
 
